@@ -452,6 +452,70 @@ static void run(std::istringstream& is)
 }
 }
 
+// translator validation of the GENERATED pvAddNogrow probe loop and pvRelocateItems loop skeleton (ocaml/driver.ml `leaf move`):
+// `leaf move <kind> <log> h1 h2 ..` -- a real HashSet with identity hash and 2^log buckets; every h is added by calling the REAL private
+// pvAddNogrow<true>(*mBuckets, h, creator) directly (no growth: the table is filled until "Hash table is full"): printed = the bucket index
+// of the returned position, or F.  Then one REAL migration (Reserve): the key type logs every move construction; printed = for every item,
+// in the order of its FIRST move, <old bucket index>.<old offset in GetBounds> -- the order in which pvRelocateItems visits the items.
+namespace mv {
+static std::vector<ull>* g_log = nullptr;
+struct TKey
+{
+	ull v;
+	explicit TKey(ull x) noexcept : v(x) {}
+	TKey(TKey&& o) noexcept : v(o.v) { if (g_log) g_log->push_back(v); }
+	TKey(const TKey&) = delete;
+	TKey& operator=(const TKey&) = delete;
+};
+template<typename HB> struct Tr
+{
+	typedef HB HashBucket;
+	static const bool isFastNothrowHashable = true;
+	template<typename ItemTraits> using Bucket = typename HB::template Bucket<ItemTraits, false>;
+	template<typename KeyArg> using IsValidKeyArg = std::false_type;
+	size_t logStart;
+	explicit Tr(size_t ls = 4) : logStart(ls) {}
+	size_t CalcCapacity(size_t bc, size_t mc) const noexcept { return HB::CalcCapacity(bc, mc); }
+	size_t GetBucketCountShift(size_t bc, size_t mc) const noexcept { return HB::GetBucketCountShift(bc, mc); }
+	size_t GetLogStartBucketCount() const noexcept { return logStart; }
+	size_t GetHashCode(const TKey& k) const noexcept { return size_t(k.v); }
+	bool IsEqual(const TKey& a, const TKey& b) const noexcept { return a.v == b.v; }
+};
+template<typename HB> static void run(size_t log, const std::vector<ull>& hv)
+{
+	typedef Tr<HB> T; typedef HashSet<TKey, T, kit::MM, HashSetItemTraits<TKey, kit::MM>, SetSett> HS;
+	W() = kit::World(); g_log = nullptr;
+	{
+		HS s{T(log), kit::MM(1)};
+		s.Reserve(1);
+		printf("%llu", ull(s.mBuckets->GetLogCount()));
+		for (ull h : hv)
+		{
+			auto creator = [h] (TKey* p) { ::new(static_cast<void*>(p)) TKey(h); };
+			try
+			{
+				auto pos = s.template pvAddNogrow<true>(*s.mBuckets, size_t(h), creator);
+				printf(" %llu", ull(HS::ConstPositionProxy::GetBucketIndex(pos)));
+			}
+			catch (const std::runtime_error&) { printf(" F"); }
+		}
+		std::map<ull, std::pair<size_t, size_t>> where;
+		auto* bk = s.mBuckets;
+		for (size_t i = 0; i < bk->GetCount(); ++i)
+		{
+			auto bounds = (*bk)[i].GetBounds(bk->GetBucketParams()); size_t p = 0;
+			for (auto it = bounds.GetBegin(); it != bounds.GetEnd(); ++it, ++p) where[it->v] = std::make_pair(i, p);
+		}
+		std::vector<ull> lg; g_log = &lg;
+		s.Reserve(std::max(s.GetCapacity(), s.GetCount()) + 1);   // always above the capacity: forces one migration
+		g_log = nullptr;
+		printf(" | %llu", ull(s.mBuckets->GetNextBuckets() == nullptr ? 1 : 2));
+		std::set<ull> seen;
+		for (ull k : lg) if (seen.insert(k).second) printf(" %llu.%llu", ull(where[k].first), ull(where[k].second));
+		printf(" | %llu\n", ull(s.GetCount()));
+	}
+}
+}
 // translator validation: the REAL leaf functions of the growth decision / probe sequence (same lines as ocaml/driver.ml `leaf`)
 static void leaf(std::istringstream& is)
 {
@@ -541,6 +605,18 @@ static void leaf(std::istringstream& is)
 		else if (k == "L1") go(Traits<HashBucketLimP4<1, MemPoolParams<1, 0>>, true>());
 		else if (k == "O3") go(Traits<HashBucketOpen2N2<3>, true>());
 		else go(Traits<HashBucketOpen8, true>());
+	}
+	else if (what == "move")
+	{
+		ull l, h; is >> k >> l; std::vector<ull> hv; while (is >> h) hv.push_back(h);
+		typedef MemPoolParams<1, 0> MP1;
+		if (k == "L1") mv::run<HashBucketLimP4<1, MP1>>(size_t(l), hv);
+		else if (k == "L2") mv::run<HashBucketLimP4<2, MP1>>(size_t(l), hv);
+		else if (k == "L4") mv::run<HashBucketLimP4<4, MP1>>(size_t(l), hv);
+		else if (k == "O1") mv::run<HashBucketOpen2N2<1>>(size_t(l), hv);
+		else if (k == "O3") mv::run<HashBucketOpen2N2<3>>(size_t(l), hv);
+		else if (k == "O8") mv::run<HashBucketOpen8>(size_t(l), hv);
+		else mv::run<HashBucketOne<>>(size_t(l), hv);
 	}
 	else puts("?leaf");
 	fflush(stdout);
